@@ -21,7 +21,9 @@ ARITH = ["add", "div", "max", "wmax", "min", "mul", "sub"]
 CMPS = ["eq", "gt", "lt"]
 NUM_LITS = [0, 1, 2, 7, 10, 100, 1000, 2**31 - 1]
 WORDS = ["acked", "rtt", "loss", "minrtt", "rate", "cwndcap", "sacked", "timeout", "ecn", "inflight", "now", "delta",
-         "alpha", "beta", "gain", "x", "y", "z", "foo", "bar", "baz", "qux", "a1", "b_2", "c.d", "Val", "MAXV", "n0"]
+         "alpha", "beta", "gain", "x", "y", "z", "foo", "bar", "baz", "qux", "a1", "b_2", "c.d", "Val", "MAXV", "n0",
+         # names that merely resemble keywords / qualifiers (ordinary variables: the qualifier is "Report." with the dot)
+         "Reports", "ReportInterval", "Reporter", "report_n", "def1", "when2", "Flowx", "Ackx", "Micros2", "Cwnd_", "Ratex", "iff", "ewma2"]
 
 
 def fresh_names(rng, k, taken):
@@ -31,7 +33,7 @@ def fresh_names(rng, k, taken):
         if rng.random() < 0.5:
             w = w + str(rng.randrange(100))
         # avoid the parser's known prefix quirks (documented exclusions, DESIGN 6.3)
-        if w in taken or w.startswith(("true", "false", "volatile", "Report", "__")) or w[0].isdigit():
+        if w in taken or w.startswith(("true", "false", "volatile", "Report.", "__")) or w[0].isdigit():
             continue
         taken.add(w)
         out.append(w)
@@ -57,6 +59,15 @@ def gen_decls(rng, nrep=None, nctl=None, bools=True):
     legacy = [(rng.random() < 0.5, "Report." + n, init()) for n in rn[nblock:]]
     controls = [(rng.random() < 0.3, n, init()) for n in cn]
     outside = legacy + controls
+    if rng.random() < 0.1 and nrep <= 12 and nctl <= 12:
+        # declared with a NAME as initial value (accepted: the variable stays untyped, gets no DEF instruction and is never
+        # read by the generated events) - the count of DEFs then differs from the count of declarations
+        for nm in fresh_names(rng, rng.choice([1, 1, 2]), taken):
+            d = (rng.random() < 0.5, nm if rng.random() < 0.5 else "Report." + nm, ("raw", rng.choice(["unset", "foo", "Cwnd"])))
+            if rng.random() < 0.4 and not d[1].startswith("Report."):
+                block.append((d[0], d[1], d[2]))
+            else:
+                outside.append(d)
     rng.shuffle(outside)
     k = rng.randrange(0, len(outside) + 1)
     return {"block": block, "before": outside[:k], "after": outside[k:]}
@@ -76,6 +87,8 @@ class Env:
         self.extra = 0
 
     def _add(self, name, init, is_rep):
+        if init[0] == "raw":
+            return  # untyped: declared but not usable by the generator
         if is_rep:
             self.reports.append(name)
         (self.bool_rc if init[0] == "bool" else self.num_rc).append(name)
@@ -83,6 +96,11 @@ class Env:
 
 def gen_num(rng, env, budget, shape=None):
     """numeric expression using at most `budget` operator nodes; returns (expr, used)"""
+    if getattr(env, "nest", 0) and env.num_rc and rng.random() < env.nest:
+        # a plain bind used as a value (its value is the value bound); the target is an ordinary numeric variable
+        tgt = rng.choice(env.num_rc + env.locals_num)
+        v, u = gen_num(rng, env, budget, shape)
+        return ("op", "bind", ("var", tgt), v), u
     if budget <= 0 or rng.random() < 0.3:
         r = rng.random()
         if r < 0.3:
@@ -136,6 +154,14 @@ def gen_cond(rng, env, budget):
 
 
 def gen_stmt(rng, env, max_tmps=8, allow_new_local=True):
+    env.nest = 0.12 if rng.random() < 0.18 else 0
+    try:
+        return _gen_stmt(rng, env, max_tmps, allow_new_local)
+    finally:
+        env.nest = 0
+
+
+def _gen_stmt(rng, env, max_tmps=8, allow_new_local=True):
     r = rng.random()
     if r < 0.08:
         return ("cmd", "report")
